@@ -210,3 +210,14 @@ Theorem C13_file_server_model_proppatch_example :
   serve (CDav (local_env [] None proppatch_req) proppatch_req') = Resp 403 [].
 Proof. exact proppatch_example_agrees. Qed.
 Print Assumptions C13_file_server_model_proppatch_example.
+
+(** A Destination that parses but has no path (http://host, //host, ?q, #f, mailto:a@b):
+    internal/server.go hands the empty path to the backend as it is (in the model:
+    [r_dest = DPath ""], inside C13_no_panic and C13_complete like every other request; not
+    counted as malformed at the handler, whose answer is the backend's); over the
+    LocalFileSystem model the answer is 400 and nothing changes. *)
+Theorem C13_empty_destination_path_400_on_file_server : forall root sb r r',
+  req_match r r' -> D.meth r = "COPY" \/ D.meth r = "MOVE" -> D.h_dest r = D.DestPath "" ->
+  exists cs, serve (CDav (local_env root sb r) r') = Resp 400 cs /\ fst (D.serve root sb r) = sb.
+Proof. exact empty_destination_path_file_server. Qed.
+Print Assumptions C13_empty_destination_path_400_on_file_server.
